@@ -43,6 +43,7 @@ theorem inv_step (s : State) (m : Move) (h : Inv s) (ha : assumed s m = true) : 
   | deleteApp kind ns app => exact (inv_truth_simple s h).2.1 kind ns app
   | setPool name size => exact (inv_truth_simple s h).2.2 name size
   | listerSync pods apps => exact inv_listerSync s pods apps h
+  | fipSync => exact h.of_fields rfl rfl rfl rfl rfl rfl rfl rfl
   | dropEvent i => exact inv_dropEvent s i h
   | filter ns name nodes ch fault => exact inv_filter s ns name nodes ch fault h
   | preempt ns name nodes ch fault => exact inv_preempt s ns name nodes ch fault h
@@ -168,6 +169,7 @@ theorem unassign_step (s : State) (m : Move) (h : Inv s) (ha : assumed s m = tru
   | listerSync pods apps =>
     apply UnassignsWithin.of_plog_eq; simp only [step]
     split <;> split <;> rfl
+  | fipSync => exact UnassignsWithin.of_plog_eq _ rfl
   | dropEvent i => apply UnassignsWithin.of_plog_eq; simp only [step]; split <;> rfl
   | filter ns name nodes ch fault => exact UnassignsWithin.of_plog_eq _ (filter_plog _ ns name nodes ch)
   | preempt ns name nodes ch fault => exact UnassignsWithin.of_plog_eq _ (preempt_plog _ ns name nodes ch)
